@@ -207,6 +207,10 @@ def h07_e2e(S, backend="mem"):
             # already over, or at least a second ahead (a delay of microseconds is over before the consumer looks - RabbitMQ expiry is in ms)
             du = vtime.dt_us(settings["deferred_until"])
             S.assume(any_of(du <= now, du >= now + SEC))
+            if has_by:
+                # a time base that is over together with a symbolic period is nonlinear ((now - base) // period): decided under C19
+                # (H19g) on its own; here it made one z3 query of this harness run into its time limit now and then
+                S.assume(du >= now + SEC)
         job = Job("my-job_1", queue="q_1", priority=prio, id_="id-1_A", **settings,
                   args=value, args_ttl=real_timedelta(hours=1) if bucket else None,
                   **({"args_id": "args-of-id-1_A"} if bucket and explicit_args_id else {}),
